@@ -49,7 +49,9 @@ Replacement(t, m, total, fname, trans, items) ==
   LET parts == [i \in 1..Len(items) |-> ItemText(t, m, total, fname, trans, items[i])]
   IN [ok |-> \A i \in 1..Len(items) : parts[i].ok,
       s  |-> Cat([i \in 1..Len(items) |-> parts[i].s]),
-      noreturn |-> \E i \in 1..Len(items) : parts[i].why = "noreturn"]
+      noreturn |-> \E i \in 1..Len(items) : parts[i].why = "noreturn",
+      undefwhy |-> IF \A i \in 1..Len(items) : parts[i].ok THEN ""
+                   ELSE parts[CHOOSE i \in 1..Len(items) : ~parts[i].ok].why]
 
 (* the text a replace command writes: every matched span substituted, every *)
 (* other byte preserved in order                                            *)
